@@ -247,6 +247,28 @@ m = re.search(r"case\s+M_SOF5\s*:\s*case\s+M_SOF6\s*:\s*case\s+M_SOF7\s*:\s*case
 if not m:
     die("jdmarker.c: unsupported-SOF case list of read_markers changed")
 
+# ---------------------------------------------------------------- standard Huffman tables (jinit_huff_decoder)
+JSTD = strip_comments(rd("jstdhuff.c"))
+std = {}
+for nm in ("bits_dc_luminance", "val_dc_luminance", "bits_dc_chrominance", "val_dc_chrominance",
+           "bits_ac_luminance", "val_ac_luminance", "bits_ac_chrominance", "val_ac_chrominance"):
+    mm = re.search(r"static\s+const\s+UINT8\s+%s\s*\[[^\]]*\]\s*=\s*\{([^}]*)\}" % nm, JSTD)
+    if not mm:
+        die("jstdhuff.c: table %s not found" % nm)
+    std[nm] = [int(x, 0) for x in re.findall(r"0x[0-9a-fA-F]+|\d+", mm.group(1))]
+    if nm.startswith("bits") and len(std[nm]) != 17:
+        die("jstdhuff.c: %s does not have 17 entries" % nm)
+slots = re.findall(r"add_huff_table\(cinfo,\s*&(dc|ac)_huff_tbl_ptrs\[(\d)\],\s*(bits_\w+),\s*(val_\w+)\);", JSTD)
+if sorted((a, int(b)) for a, b, _, _ in slots) != [("ac", 0), ("ac", 1), ("dc", 0), ("dc", 1)]:
+    die("jstdhuff.c: std_huff_tables no longer fills exactly dc/ac slots 0 and 1")
+if norm("if (*htblptr == NULL) *htblptr = jpeg_alloc_huff_table(cinfo); else if (cinfo->is_decompressor) return;") not in norm(JSTD):
+    die("jstdhuff.c: add_huff_table no longer keeps a table already defined by the datastream")
+if norm("std_huff_tables((j_common_ptr)cinfo);") not in norm(JDHUFF_C[JDHUFF_C.find("jinit_huff_decoder"):]):
+    die("jdhuff.c: jinit_huff_decoder no longer installs the standard tables")
+for f, fn in ((JDPHUFF, "jdphuff.c"), (JDLHUFF, "jdlhuff.c")):
+    if "std_huff_tables" in f:
+        die("%s now installs standard tables too (model assumes only jdhuff.c does)" % fn)
+
 # ---------------------------------------------------------------- output
 out = []
 w = out.append
@@ -273,6 +295,11 @@ w("Definition natural_order : list Z :=\n  [%s]." % ";\n   ".join(
 w("")
 for name, val in bounds:
     w("Definition %s : Z := %d." % (name, val))
+w("")
+w("(* std_huff_tables: tables installed by jinit_huff_decoder into empty slots (isDC, slot, bits[17], huffval) *)")
+w("Definition std_huff : list (bool * Z * list Z * list Z) :=\n  [%s]." % ";\n   ".join(
+    "(%s, %s, [%s], [%s])" % ("true" if a == "dc" else "false", b, "; ".join(map(str, std[bn])), "; ".join(map(str, std[vn])))
+    for a, b, bn, vn in slots))
 w("")
 w("(* guards of the C text found verbatim (whitespace-insensitive) by the translator: %d *)" % len(guard_names))
 w("Definition guards_present : Z := %d." % len(guard_names))
